@@ -1834,11 +1834,11 @@ fn main() {
          Non-trivial = the compiled GPOS has a lookup promoted to extension or a lookup with more subtables than the builders produced (split); distinct by hash of the case.",
     );
     ctx.assume("read-fonts parses the tables the walker navigates (coverage/classdef get, record arrays, offsets); precedence model: per PairPosBuilder glyph-pair rules first (first inserted wins), then its class subtable decides for every first glyph it covers; builders of a lookup in order; mark/base: first builder holding the mark whose base has an anchor for the mark's class; an all-zero adjustment and 'no subtable applied' are the same observable; a case whose dump_table fails (packing) is counted, not judged");
-    ctx.prop_stage("sets", Isolation::Threads, ctx.n(2_500, 40_000), sets_strategy, test_sets);
+    ctx.prop_stage("sets", Isolation::Threads, ctx.n(5_000, 100_000), sets_strategy, test_sets);
     let budget: u32 = if ctx.quick() { 400_000 } else { 1_500_000 };
-    ctx.prop_stage("gpos-small", Isolation::Threads, ctx.n(300, 6_000), move || gpos_strategy(0, budget), test_gpos);
-    ctx.prop_stage("gpos-medium", Isolation::Threads, ctx.n(48, 700), move || gpos_strategy(1, budget), test_gpos);
-    ctx.prop_stage("gpos-large", Isolation::Threads, ctx.n(16, 200), move || gpos_strategy(2, budget), test_gpos);
+    ctx.prop_stage("gpos-small", Isolation::Threads, ctx.n(1_200, 24_000), move || gpos_strategy(0, budget), test_gpos);
+    ctx.prop_stage("gpos-medium", Isolation::Threads, ctx.n(160, 2_400), move || gpos_strategy(1, budget), test_gpos);
+    ctx.prop_stage("gpos-large", Isolation::Threads, ctx.n(40, 480), move || gpos_strategy(2, budget), test_gpos);
     ctx.excluded_known(EXCLUDED.load(std::sync::atomic::Ordering::Relaxed));
     ctx.finish();
 }
